@@ -105,7 +105,12 @@ def run_hist(hist, H, choice):
             if o["op"] == "new":
                 dicts, kw = split_dicts(o["items"], H, choice >> step)
                 try:
-                    t = H.Tag("div", *dicts, **kw)
+                    if (choice >> (step + 7)) & 1:
+                        # the way wrappers forward their arguments: consolidate first, then hand the result to a tag
+                        attrs, _ = H.consolidate_attrs(*dicts, **kw)
+                        t = H.Tag("div", attrs)
+                    else:
+                        t = H.Tag("div", *dicts, **kw)
                 except TypeError:
                     t = H.Tag("div")
                     raise
